@@ -32,7 +32,13 @@ def native_confirm(prop, res, sc):
         obs = incr_native.replay_runs(sc, worlds, [{'epoch': 1, 'mode': 'ok'}, {'epoch': 2, 'mode': 'ok'}])
         if name == 'record_stored_after_success':
             return (obs[0]['rc'] == 0 and not obs[0]['state_file_exists']), obs
-        return (obs[0]['rc'] == 0 and obs[1]['script_spawned']), obs
+        if obs[0]['rc'] == 0 and obs[1]['script_spawned']:
+            return True, obs
+        # second attempt: the script itself changes the tree while it runs (epoch 0 -> 1), nothing changes afterwards
+        if not any(d != '/p' for c, d in sc.in_cmds):
+            obs2 = incr_native.replay_runs(sc, worlds, [{'epoch': 1, 'mode': 'ok_changing', 'epoch_before': 0}, {'epoch': 2, 'mode': 'ok', 'keep_tree': True}])
+            return (obs2[0]['rc'] == 0 and obs2[1]['script_spawned']), obs + obs2
+        return False, obs
     if name == 'death_between_decision_and_complete_write_never_skipped':
         obs = incr_native.replay_runs(sc, worlds, [{'epoch': 1, 'mode': 'ok'}, {'epoch': 2, 'mode': 'crash_in_script'}, {'epoch': 4, 'mode': 'ok'}])
         return (obs[1]['rc'] == 77 and obs[2]['skipped'] and not obs[2]['script_spawned']), obs
@@ -109,6 +115,34 @@ def run(prop, tier, seed, repo, jobs):
             inconclusive.append('native validation of the skip decision diverged: %s' % pattern)
     except Exception as e:   # pragma: no cover
         inconclusive.append('native validation failed: %s' % e)
+    if prop == 'C05':
+        # builder::build_target classifies the exit status: decided on the protocol model (one build target)
+        try:
+            from . import proto
+            from .. import replay as rp
+            pres = proto.run_case(('C05', ('build',), False, 8, 4, seed, False, 300, repo, tier))
+            if pres['error']:
+                inconclusive.append('builder: %s' % pres['error'])
+            else:
+                fns |= set(pres['functions'])
+                for q in pres['queries']:
+                    nob += 1
+                    if q['verdict'] == 'unsat':
+                        ndis += 1
+                        samples.append({'scenario': 'builder::build_target (SYS, one build target)', 'obligation': q['name'], 'verdict': 'unsat'})
+                    elif q['verdict'] == 'sat':
+                        tr, sched, info, args = rp.replay_case(q['case'], repo)
+                        confirmed = proto.confirm_native(q['confirm'], q['case'], tr)
+                        rpath = os.path.join(common.REPLAYS, 'C05-builder.json')
+                        rp.save_replay(rpath, prop, q['name'], q['case'], sched, args, tr.summary())
+                        if confirmed:
+                            violations.append(rpath)
+                        else:
+                            inconclusive.append('builder: %s not reproduced natively (replay %s)' % (q['name'], rpath))
+                    else:
+                        inconclusive.append('builder: %s: solver %s' % (q['name'], q['verdict']))
+        except Exception as e:   # pragma: no cover
+            inconclusive.append('builder: %s' % e)
     native_probes = []
     if prop == 'C05':
         # native probe (not a solver obligation): the allocation behaviour of the real bincode on a corrupted length
